@@ -216,6 +216,10 @@ func (ro *Roles) reloadModset(r *Report, rule string) {
 				stored = true
 			case (e.Kind == "call" || e.Kind == "defer") && strings.Contains(e.Target, "sync.RWMutex)"):
 			case e.Kind == "store" && strings.HasPrefix(e.Target, "local"):
+			case e.Kind == "call" && e.Spliced:
+				// a spliced helper: its own effects follow on the path
+			case e.Kind == "call" && (e.Target == "len" || e.Target == "cap" || e.Callee != nil && w.pureFunc(e.Callee, 0)):
+				// a read-only helper (a count for a log line)
 			default:
 				ok = false
 				detail = e.String()
@@ -550,4 +554,47 @@ func (sf *sliceFlow) writesThrough(fn *ssa.Function, root ssa.Value, d int) []sl
 		})
 	}
 	return out
+}
+
+// pureFunc: f only reads — no store outside its own locals, no map update, send, go or defer, and it calls
+// only len/cap, logging and other pure module functions (depth ≤ 2).
+func (w *World) pureFunc(f *ssa.Function, depth int) bool {
+	if f == nil || f.Blocks == nil || !w.InModule(f) || depth > 2 {
+		return false
+	}
+	ok := true
+	allInstrs(f, func(in ssa.Instruction) {
+		switch x := in.(type) {
+		case *ssa.Store:
+			if _, isAlloc := w.resolveAddr(x.Addr).(*ssa.Alloc); !isAlloc {
+				if fa, isFA := x.Addr.(*ssa.FieldAddr); isFA {
+					if _, baseAlloc := fa.X.(*ssa.Alloc); baseAlloc {
+						return
+					}
+				}
+				if ia, isIA := x.Addr.(*ssa.IndexAddr); isIA {
+					if _, baseAlloc := ia.X.(*ssa.Alloc); baseAlloc {
+						return
+					}
+				}
+				ok = false
+			}
+		case *ssa.MapUpdate, *ssa.Send, *ssa.Go, *ssa.Defer, *ssa.Select:
+			ok = false
+		case *ssa.Call:
+			if b, isB := x.Call.Value.(*ssa.Builtin); isB {
+				if b.Name() != "len" && b.Name() != "cap" {
+					ok = false
+				}
+				return
+			}
+			if isLogCall(&x.Call) {
+				return
+			}
+			if g := x.Call.StaticCallee(); g == nil || !w.pureFunc(g, depth+1) {
+				ok = false
+			}
+		}
+	})
+	return ok
 }
